@@ -19,13 +19,9 @@ func (d *DotGit) setRef(fileName, content string, old *plumbing.Reference) (err 
 }
 
 func (d *DotGit) setRefRwfs(fileName, content string, old *plumbing.Reference) (err error) {
-	// If we are not checking an old ref, just truncate the file.
-	mode := os.O_RDWR | os.O_CREATE
-	if old == nil {
-		mode |= os.O_TRUNC
-	}
-
-	f, err := d.fs.OpenFile(fileName, mode, 0o666)
+	// The file is never opened with O_TRUNC: that would empty it before the
+	// lock is held, under a writer that holds the lock right now.
+	f, err := d.fs.OpenFile(fileName, os.O_RDWR|os.O_CREATE, 0o666)
 	if err != nil {
 		return err
 	}
@@ -47,6 +43,14 @@ func (d *DotGit) setRefRwfs(fileName, content string, old *plumbing.Reference) (
 	err = d.checkReferenceAndTruncate(f, old)
 	if err != nil {
 		return err
+	}
+
+	if old == nil {
+		// If we are not checking an old ref, just truncate the file, now
+		// that no other writer can be in the middle of its update.
+		if err = f.Truncate(0); err != nil {
+			return err
+		}
 	}
 
 	_, err = f.Write([]byte(content))
